@@ -390,3 +390,96 @@ Proof. intros Hws Ht Hs. rewrite (sen_read_skip ws _ Hws). apply sen_string_roun
 
 Example skipb_space_tab : skipb x20 = true /\ skipb x09 = true /\ skipb x0d = true /\ skipb x2c = true.
 Proof. vm_compute. repeat split; reflexivity. Qed.
+
+(* ---- arrays of strings *)
+Definition elem_ok (html : bool) (s : bytes) : Prop := sen_quoted html s = true \/ sign_leading s = false.
+Definition elem_out (html : bool) (s : bytes) : rout := if sen_quoted html s then Str (sanitize s) else Tok s.
+
+Lemma elem_read html s t rest : elem_ok html s -> tok_end (SenMaps.tab_tokenMap t) = true ->
+  sen_read (sen_string html s ++ t :: rest) = Some (elem_out html s, t :: rest).
+Proof.
+  intros Hs Ht. unfold elem_out. destruct (sen_quoted html s) eqn:Hq.
+  - apply sen_quoted_round_trip. exact Hq.
+  - destruct Hs as [Hs|Hs]; [rewrite Hq in Hs; discriminate|]. destruct s as [|b0 s']; [discriminate Hq|].
+    assert (Hm : b0 <> x2d) by (intro E; subst b0; discriminate Hs).
+    assert (Hp : b0 <> x2b) by (intro E; subst b0; discriminate Hs).
+    destruct (sen_bare_round_trip html b0 s' t rest Hq Hm Hp Ht) as (_ & _ & E3). exact E3.
+Qed.
+
+(* the first byte of a written string neither is white space nor closes an array *)
+Lemma elem_first html s : elem_ok html s ->
+  exists b r, sen_string html s = b :: r /\
+    act_is (SenMaps.tab_valueMap b) SenMaps.A_skipChar = false /\
+    act_is (SenMaps.tab_valueMap b) SenMaps.A_closeArray = false.
+Proof.
+  intro Hs. destruct (sen_quoted html s) eqn:Hq.
+  - unfold sen_string. destruct s as [|b0 s']; [exists x22, [x22]; repeat split; reflexivity|].
+    rewrite Hq. eexists; eexists. split; [reflexivity|]. split; reflexivity.
+  - destruct Hs as [Hs|Hs]; [rewrite Hq in Hs; discriminate|]. destruct s as [|b0 s']; [discriminate Hq|].
+    assert (Hm : b0 <> x2d) by (intro E; subst b0; discriminate Hs).
+    assert (Hp : b0 <> x2b) by (intro E; subst b0; discriminate Hs).
+    destruct (sen_bare_round_trip html b0 s' x20 [] Hq Hm Hp eq_refl) as (E1 & _ & _). rewrite E1.
+    assert (Hq' := Hq). unfold sen_quoted in Hq'.
+    apply orb_false_iff in Hq' as [Hq' Hbody]. apply orb_false_iff in Hq' as [_ Hfirst]. apply negb_false_iff in Hfirst.
+    destruct (sen_body_bare (length (b0 :: s')) html true (b0 :: s') (le_n _) Hbody) as (_ & E2 & _).
+    pose proof (Forall_inv E2) as Hb0. cbn beta in Hb0.
+    assert (Hbf : bare_first html b0 = true).
+    { unfold bare_first. unfold sen_first_ok in Hfirst. unfold bare_class in Hb0.
+      apply orb_true_iff in Hfirst as [Hfirst|Hfirst].
+      - rewrite Hfirst. reflexivity.
+      - apply andb_true_iff in Hfirst as [Hh Hc]. apply beqb_eq in Hc. rewrite Hc in Hb0 |- *.
+        change (beqb x68 x6f) with false in *. change (beqb x68 x30) with false in *. change (beqb x68 x38) with false in *.
+        exact Hb0. }
+    pose proof (bare_first_starts_token html b0 Hbf Hm Hp) as Hst. unfold is_start in Hst. apply N.eqb_eq in Hst.
+    exists b0, s'. split; [reflexivity|]. unfold act_is. rewrite Hst. split; reflexivity.
+Qed.
+
+Lemma skip_ws_elem html s rest : elem_ok html s -> skip_ws (sen_string html s ++ rest) = sen_string html s ++ rest.
+Proof.
+  intro Hs. destruct (elem_first html s Hs) as (b & r & E & N1 & _). rewrite E. cbn [List.app skip_ws]. rewrite N1. reflexivity.
+Qed.
+
+Lemma read_elems_printed html xs : forall fuel rest, xs <> [] -> Forall (elem_ok html) xs -> (length xs < fuel)%nat ->
+  read_elems fuel (sen_elems html xs ++ x5d :: rest) = Some (map (elem_out html) xs, rest).
+Proof.
+  induction xs as [|x xs IH]; intros fuel rest Hne Hok Hf; [contradiction|].
+  destruct fuel as [|fuel]; [simpl in Hf; lia|]. simpl in Hf.
+  pose proof (Forall_inv Hok) as Hx. pose proof (Forall_inv_tail Hok) as Hxs.
+  destruct (elem_first html x Hx) as (b & r & E & N1 & N2).
+  destruct xs as [|y ys].
+  - cbn [sen_elems map read_elems]. rewrite (skip_ws_elem html x _ Hx). rewrite E. cbn [List.app]. rewrite N2.
+    change (b :: r ++ x5d :: rest) with ((b :: r) ++ x5d :: rest). rewrite <- E.
+    pose proof (elem_read html x x5d rest Hx eq_refl) as HR. unfold sen_read in HR. rewrite HR.
+    destruct fuel as [|fuel]; [lia|]. cbn [read_elems skip_ws].
+    change (act_is (SenMaps.tab_valueMap x5d) SenMaps.A_skipChar) with false. cbn iota.
+    change (act_is (SenMaps.tab_valueMap x5d) SenMaps.A_closeArray) with true. cbn iota. reflexivity.
+  - change (sen_elems html (x :: y :: ys)) with (sen_string html x ++ x20 :: sen_elems html (y :: ys)).
+    rewrite <- app_assoc. cbn [List.app map read_elems]. rewrite (skip_ws_elem html x _ Hx). rewrite E. cbn [List.app]. rewrite N2.
+    change (b :: r ++ x20 :: sen_elems html (y :: ys) ++ x5d :: rest) with ((b :: r) ++ x20 :: (sen_elems html (y :: ys) ++ x5d :: rest)). rewrite <- E.
+    pose proof (elem_read html x x20 (sen_elems html (y :: ys) ++ x5d :: rest) Hx eq_refl) as HR. unfold sen_read in HR. rewrite HR.
+    assert (Hsk : read_elems fuel (x20 :: sen_elems html (y :: ys) ++ x5d :: rest) = read_elems fuel (sen_elems html (y :: ys) ++ x5d :: rest)).
+    { destruct fuel as [|f2]; [reflexivity|]. cbn [read_elems skip_ws].
+      change (act_is (SenMaps.tab_valueMap x20) SenMaps.A_skipChar) with true. cbn iota. reflexivity. }
+    rewrite Hsk. rewrite (IH fuel rest ltac:(discriminate) Hxs ltac:(simpl in *; lia)). reflexivity.
+Qed.
+
+Lemma sen_elems_length html xs : Forall (elem_ok html) xs -> (length xs <= length (sen_elems html xs))%nat.
+Proof.
+  induction xs as [|x xs IH]; intro H; [simpl; lia|].
+  pose proof (Forall_inv H) as Hx. pose proof (Forall_inv_tail H) as Hxs. specialize (IH Hxs).
+  destruct (elem_first html x Hx) as (b & r & E & _ & _).
+  destruct xs as [|y ys]; [cbn [sen_elems length]; rewrite E; simpl; lia|].
+  change (sen_elems html (x :: y :: ys)) with (sen_string html x ++ x20 :: sen_elems html (y :: ys)).
+  rewrite app_length, E. cbn [length] in *. lia.
+Qed.
+
+Theorem sen_array_round_trip html xs rest : Forall (elem_ok html) xs ->
+  read_array (sen_array html xs ++ rest) = Some (map (elem_out html) xs, rest).
+Proof.
+  intro Hok. unfold sen_array. destruct xs as [|x xs]; [reflexivity|].
+  set (l := x :: xs) in *. cbn [List.app read_array].
+  change (act_is (SenMaps.tab_valueMap x5b) SenMaps.A_openArray) with true. cbn iota.
+  rewrite <- app_assoc. cbn [List.app].
+  apply read_elems_printed; [discriminate|exact Hok|].
+  rewrite app_length. pose proof (sen_elems_length html l Hok). cbn [length]. lia.
+Qed.
